@@ -122,7 +122,8 @@ def make(pos, lk, rk, op):
         if ok:
             return True, info
         env = {"kind": out.kind, "b": b, "l": lv, "r": rv, "res": r, "op": op, "pos": pos, "lk": lk, "rk": rk,
-               "poskind": kind, "llbl": "lbl" in lk, "rlbl": "lbl" in (rk or ""), "o": o}
+               "poskind": kind, "llbl": "lbl" in lk, "rlbl": "lbl" in (rk or ""), "o": o,
+               "wide": ("equ" in lk or "equ" in (rk or "") or "H4" in lk or "H4" in (rk or "") or "lbl" in lk or "lbl" in (rk or "") or lv >= 256 or (rv is not None and rv >= 256))}
         return ctx.known(PID, {"pos": pos, "poskind": kind, "op": op, "lk": lk.split(":")[0][:3], "rk": (rk or "").split(":")[0][:3]}, env), info
     return Ob(oid, body, timeout=120, tags={"pos": pos, "op": op}, text="%s %s   [%s %s %s]" % (m, fmt, lk, op, rk))
 
@@ -135,6 +136,8 @@ def encodes(kind, m, b, r):
         if (0 <= r) and (r <= 255):
             return b == [r]
         return True                                      # width violations are C05/C12's subject
+    if kind == "imm8" and (-128 <= r) and (r <= -1):
+        return b[1:] == [r % 256] and len(b) == 2        # a negative 8-bit result: two's complement at 8 bits (or rejected)
     if kind == "imm8" and not ((0 <= r) and (r <= 255)):
         return True                                      # width violations are C12's subject
     d = decode(b)
